@@ -78,6 +78,9 @@ fn strategy() -> BoxedStrategy<Case> {
                 6 => vec(valid, 1..3),
                 2 => Just(vec![Op::Request(1, 0, 16), Op::NotInterested, Op::Rotate, Op::Request(1, 4, 16), Op::Interested, Op::Rotate, Op::Request(1, 8, 16)]),
                 2 => Just(vec![]),
+                // choked for lack of interest, interested again and picked as the optimistic unchoke (one of three
+                // rotations is the optimistic round), loses interest, is choked by the next rotation, asks anyway
+                2 => Just(vec![Op::NotInterested, Op::Rotate, Op::Interested, Op::Rotate, Op::Rotate, Op::Rotate, Op::Request(1, 0, 16), Op::NotInterested, Op::Rotate, Op::Request(1, 4, 16), Op::Rotate, Op::Request(1, 8, 16)]),
             ], vec(op, 1..30), Just(seed))
         })
         .prop_map(|(piece_len, last_len, mut pre, ops, seed)| {
